@@ -385,7 +385,8 @@ class SetCookie(_ListElement, _CookieElement):
 
 	@classmethod
 	def split(cls, fieldvalue: bytes) -> List[bytes]:
-		fieldvalue = re.sub(b'(expires)=([^"][^;]+)', b'\\1="\\2"', fieldvalue, flags=re.I)
+		# the date has at most one comma, after the name of the weekday; the next comma separates the next cookie
+		fieldvalue = re.sub(b'(expires)=(?!")((?:[A-Za-z]+,)?[^",;]+)', b'\\1="\\2"', fieldvalue, flags=re.I)
 		return super(SetCookie, cls).split(fieldvalue)
 
 	@property
